@@ -22,12 +22,20 @@ static void setup() {
     g::WordClasses::get();
 }
 // every block the library hands to the injected free (seed release, and failure exits of load/decode) must have been
-// wiped through the injected function first: in "mark" mode its content is 0xEE throughout
+// wiped through the injected function first: its content is zero throughout AND, while it was allocated, the injected wipe
+// function (which really wipes, and logs its calls) was called on a range that covers it - zeroing by other means (memset,
+// a loop) leaves no such call.  (An earlier version injected a wipe function that writes 0xEE and looked for that mark; a
+// library that legitimately obtains zeroed memory through the wipe function would have been disturbed by it.)
 static size_t g_freed_seen = 0;
+static std::string wiped_through_injected(const deps::Freed& fr, const char* call) {
+    deps::Kit& k = deps::kit(SET);
+    for (uint8_t b : fr.content) if (b != 0) return std::string("during ") + call + " a block reached the injected free without having been wiped (content " + vf::hex(fr.content).substr(0, 80) + "...)";
+    for (size_t i = fr.mz_at_alloc; i < fr.mz_index && i < k.mz.size(); i++) { const deps::MzCall& mc = k.mz[i]; if ((uint8_t*)mc.ptr <= (uint8_t*)fr.ptr && (uint8_t*)mc.ptr + mc.len >= (uint8_t*)fr.ptr + fr.size) return ""; }
+    return std::string("during ") + call + " a block reached the injected free zeroed, but the injected wipe function was never called on a range covering it: the wiping did not go through the injected function";
+}
 static std::string freed_blocks_wiped(const char* call) {
     deps::Kit& k = deps::kit(SET);
-    for (; g_freed_seen < k.freed.size(); g_freed_seen++) for (uint8_t b : k.freed[g_freed_seen].content) if (b != 0xEE)
-        return std::string("during ") + call + " a block reached the injected free without having been wiped by the injected wipe function (content " + vf::hex(k.freed[g_freed_seen].content).substr(0, 80) + "...)";
+    for (; g_freed_seen < k.freed.size(); g_freed_seen++) { std::string m = wiped_through_injected(k.freed[g_freed_seen], call); if (!m.empty()) return m; }
     return "";
 }
 // Writable static storage that the objects of the library contribute to the executable (taken from the linker map by the
@@ -85,7 +93,7 @@ static std::vector<unsigned> indices_of(const lib::LangEntry& le, const std::str
 // case: secret(19, high entropy) birthday ufeat lang coin pw(hex) mask(hex32) scenario
 static std::string oracle(const Case& c) {
     SET = (int)(c.u("set") & 1); deps::inject(SET); deps::kit(1 - SET).reset_all();
-    deps::Kit& k = deps::kit(SET); k.reset_all(); g_freed_seen = 0; G_ALL.clear(); Evidence& ev = W().ev; k.mz_mode = deps::MZ_MARK; polyseed_enable_features(7);
+    deps::Kit& k = deps::kit(SET); k.reset_all(); g_freed_seen = 0; G_ALL.clear(); Evidence& ev = W().ev; k.mz_mode = deps::MZ_WIPE; k.mz_log = true; polyseed_enable_features(7);
     const lib::LangEntry* le = REG->by_name(c.get("lang")); if (!le) return "";
     std::string sec = c.bytes("secret"); sec.resize(19, '\x5a'); std::string sec150 = sec; sec150[18] &= 0x3F; unsigned coin = (unsigned)c.u("coin") & 2047u, uf = (unsigned)c.u("ufeat") & 7u;
     std::string pw = c.bytes("pw"); pw = pw.substr(0, pw.find('\0')); std::string mask = c.bytes("mask"); mask.resize(32, '\x77');
@@ -170,9 +178,7 @@ static std::string oracle(const Case& c) {
     {
         size_t f0 = k.freed.size(); polyseed_data* p = seed; on_stack([&]() { polyseed_free(seed); }); msg = scan(P, "free"); if (!msg.empty()) return msg;
         if (k.freed.size() != f0 + 1 || k.freed.back().ptr != p) return "free(seed) did not hand the seed block to the injected free";
-        const deps::Freed& fr = k.freed.back(); for (uint8_t b : fr.content) if (b != 0xEE) return "the seed block reached free without having been wiped by the injected wipe function (content " + hex(fr.content).substr(0, 64) + "...)";
-        if (fr.mz_index == 0) return "no wipe call precedes the free"; const deps::MzCall& mc = k.mz[fr.mz_index - 1];
-        if (!((uint8_t*)mc.ptr <= (uint8_t*)p && (uint8_t*)mc.ptr + mc.len >= (uint8_t*)p + fr.size)) return "the wipe call immediately before free does not cover the whole seed block";
+        { std::string wm = wiped_through_injected(k.freed.back(), "free(seed)"); if (!wm.empty()) return wm; }
         ev.count("call:free");
     }
     if (deps::kit(1 - SET).mz_calls) return "the wipe function of a dependency set that is no longer injected was called " + std::to_string(deps::kit(1 - SET).mz_calls) + " times (and the injected one " + std::to_string(k.mz_calls) + " times)";
